@@ -77,6 +77,8 @@ type Term struct {
 	tbl  *Table
 	id   int
 	h    uint64 // structural hash (stable across engines / runs)
+	um   uint64
+	umOK bool
 }
 
 type termKey struct {
@@ -482,6 +484,15 @@ func (ts *TermStore) BV(op Op, a, b *Term) *Term {
 		if b.IsConst() {
 			return ts.BV(OpAdd, a, ts.Const(w, -b.val))
 		}
+		// (x + y) - x => y
+		if a.op == OpAdd {
+			if a.a[0] == b {
+				return a.a[1]
+			}
+			if a.a[1] == b {
+				return a.a[0]
+			}
+		}
 	case OpMul:
 		if a.IsConst() {
 			a, b = b, a
@@ -544,8 +555,18 @@ func (ts *TermStore) BNot(a *Term) *Term {
 	return ts.un(OpBNot, a.w, a)
 }
 
-// upper bound on the unsigned value of t (cheap range analysis)
+// upper bound on the unsigned value of t (cheap range analysis, memoised)
 func (t *Term) umax() uint64 {
+	if t.umOK {
+		return t.um
+	}
+	t.um = t.umax0()
+	t.umOK = true
+	return t.um
+}
+
+func (t *Term) umax0() uint64 {
+	m := mask(t.w)
 	switch t.op {
 	case OpConst:
 		return t.val
@@ -568,19 +589,62 @@ func (t *Term) umax() uint64 {
 		}
 		return y
 	case OpTbl:
-		var m uint64
+		var mm uint64
 		for _, v := range t.tbl.vals {
-			if v > m {
-				m = v
+			if v > mm {
+				mm = v
 			}
 		}
-		return m
+		return mm
 	case OpURem:
 		if t.a[1].IsConst() && t.a[1].val > 0 {
 			return t.a[1].val - 1
 		}
+	case OpUDiv:
+		if t.a[1].IsConst() && t.a[1].val > 0 {
+			return t.a[0].umax() / t.a[1].val
+		}
+	case OpAdd:
+		x, y := t.a[0].umax(), t.a[1].umax()
+		sum, c := bits.Add64(x, y, 0)
+		if c == 0 && sum <= m {
+			return sum
+		}
+	case OpMul:
+		x, y := t.a[0].umax(), t.a[1].umax()
+		hi, lo := bits.Mul64(x, y)
+		if hi == 0 && lo <= m {
+			return lo
+		}
+	case OpBOr, OpBXor:
+		x, y := t.a[0].umax(), t.a[1].umax()
+		if x < y {
+			x = y
+		}
+		// next power of two minus one
+		n := bits.Len64(x)
+		if n >= 64 {
+			return m
+		}
+		r := (uint64(1) << uint(n)) - 1
+		if r < m {
+			return r
+		}
+	case OpExtract:
+		if t.j == 0 {
+			x := t.a[0].umax()
+			if x <= m {
+				return x
+			}
+		}
 	}
-	return mask(t.w)
+	return m
+}
+
+// noWrapAdd reports whether a+b cannot overflow the width.
+func noWrapAdd(a, b *Term) bool {
+	sum, c := bits.Add64(a.umax(), b.umax(), 0)
+	return c == 0 && sum <= mask(a.w)
 }
 
 func (ts *TermStore) Cmp(op Op, a, b *Term) *Term {
@@ -602,6 +666,16 @@ func (ts *TermStore) Cmp(op Op, a, b *Term) *Term {
 	if a == b {
 		return ts.Bool(op == OpUle || op == OpSle)
 	}
+	// signed comparison of two values that are both non-negative is an unsigned one
+	if op == OpSlt || op == OpSle {
+		half := uint64(1) << uint(a.w-1)
+		if a.umax() < half && b.umax() < half {
+			if op == OpSlt {
+				return ts.Cmp(OpUlt, a, b)
+			}
+			return ts.Cmp(OpUle, a, b)
+		}
+	}
 	switch op {
 	case OpUlt:
 		if b.IsConst() && b.val == 0 {
@@ -610,11 +684,24 @@ func (ts *TermStore) Cmp(op Op, a, b *Term) *Term {
 		if b.IsConst() && a.umax() < b.val {
 			return ts.True
 		}
+		if a.IsConst() && b.umax() <= a.val {
+			return ts.False
+		}
+		// (x + y) < x  is false when x + y cannot wrap
+		if a.op == OpAdd && (a.a[0] == b || a.a[1] == b) && noWrapAdd(a.a[0], a.a[1]) {
+			return ts.False
+		}
 	case OpUle:
 		if b.IsConst() && a.umax() <= b.val {
 			return ts.True
 		}
 		if a.IsConst() && a.val == 0 {
+			return ts.True
+		}
+		if a.IsConst() && b.umax() < a.val {
+			return ts.False
+		}
+		if b.op == OpAdd && (b.a[0] == a || b.a[1] == a) && noWrapAdd(b.a[0], b.a[1]) {
 			return ts.True
 		}
 	}
@@ -929,4 +1016,3 @@ func (t *Term) pretty(d int) string {
 	return sb.String()
 }
 
-var _ = bits.Len64
